@@ -527,16 +527,20 @@ Proof.
     + unfold Rc; cbn [mstate mcache mrw mdef mok cache_after rw_after def_after]. cbn. rewrite <- B2.
       destruct (negb (Bool.eqb b (rewindable P D s))); cbn; (repeat split; auto; try congruence).
   - (* pause *)
+    unfold request_pause_in_task.
     destruct (request_pause P D s defer) as [[s1 e] o1] eqn:Er. intros H; inv H.
+    assert (Hmc : forall (s1 : st) m1, Rc s1 m1 ->
+                  Rc (if resumable P D s then s1 else set_must_cancel P D s1 (must_cancel P D s)) m1).
+    { intros s1' m1 H1. destruct (resumable P D s); [exact H1 | exact H1]. }
     destruct defer.
     + apply request_pause_defer in Er. destruct Er as (-> & [(-> & Ea & ->) | (Hn & Ea & ->)]).
-      * cbn [app mon_obss fold_left mon_obs]. rewrite Hp, Ec. split; [|reflexivity]. unfold Rc; cbn. (repeat split; auto; try congruence).
-      * destruct e; [|congruence]. cbn [app mon_obss fold_left mon_obs]. rewrite Hp, Ec. split; [|reflexivity]. unfold Rc; cbn. (repeat split; auto; try congruence).
+      * cbn [app mon_obss fold_left mon_obs]. rewrite Hp, Ec. split; [|reflexivity]. apply Hmc. unfold Rc; cbn. (repeat split; auto; try congruence).
+      * destruct e; [|congruence]. cbn [app mon_obss fold_left mon_obs]. rewrite Hp, Ec. split; [|reflexivity]. apply Hmc. unfold Rc; cbn. (repeat split; auto; try congruence).
     + apply (request_pause_now _ m) in Er; [|exact HR | rewrite Hc; reflexivity].
       destruct Er as [(C1 & C2 & C3 & C4 & C5 & C6) (S1 & S2 & S3)].
       rewrite mon_obss_app. generalize dependent (mon_obss m o). intros m1 C1 C2 C3 C4 C5 S1 S2 S3.
       cbn [mon_obss fold_left mon_obs]. rewrite S1, Hp, Ec.
-      split; [|reflexivity]. unfold Rc; cbn. destruct e; cbn; (repeat split; auto; try congruence).
+      split; [|reflexivity]. apply Hmc. unfold Rc; cbn. destruct e; cbn; (repeat split; auto; try congruence).
   - (* open_run *)
     destruct (amem (mrun x) (bundlers P D s)).
     + intros H; inv H. eapply done_quiet; eauto using teq_refl; rewrite Ec; reflexivity.
